@@ -208,6 +208,9 @@ pub fn func(f: Func, a: &[C]) -> RC {
         Root if cabs(a[0]) >= 1e-3 => pow_ref(a[1], cdiv(ONE, a[0])),
         Sin if small => rel9(csin(z)),
         Cos if small => rel9(ccos(z)),
+        // far from the real axis tan is +-i to far better than the tolerance (and cos, sin overflow long before)
+        Tan if z.0.abs() <= 30.0 && z.1.abs() > 20.0 && z.1.abs() <= 1000.0 => rel9((0.0, z.1.signum())),
+        Tanh if z.1.abs() <= 30.0 && z.0.abs() > 20.0 && z.0.abs() <= 1000.0 => rel9((z.0.signum(), 0.0)),
         Tan if small => {
             let c = ccos(z);
             if cabs(c) < 1e-3 {
@@ -313,30 +316,41 @@ pub fn eval(ast: &Ast, ph: C) -> RC {
                 _ => unspec(),
             }
         }
-        Ast::Bin(op @ (Op::Add | Op::Sub | Op::Mul | Op::Div), a, b) if derived(&eval(a, ph), &eval(b, ph)) => combine(*op, &eval(a, ph), &eval(b, ph)),
-        Ast::IMul(a, b) if derived(&eval(a, ph), &eval(b, ph)) => combine(Op::Mul, &eval(a, ph), &eval(b, ph)),
-        Ast::Bin(op, a, b) => match (known(&eval(a, ph)), known(&eval(b, ph))) {
-            (Some(x), Some(y)) => match op {
-                Op::Add => ex(cadd(x, y)),
-                Op::Sub => ex(csub(x, y)),
-                Op::Mul => ex(cmul(x, y)),
-                Op::Div => {
-                    let q = cdiv(x, y);
-                    if finite(x) && finite(y) && cabs(y) > 1e-300 && finite(q) && cabs(x) < 1e150 && cabs(y) < 1e150 && cabs(x) > 1e-150 && cabs(y) > 1e-150 {
-                        RC { v: q, q: QC::Rel(1e-12) }
-                    } else {
-                        unspec()
+        Ast::Bin(op, a, b) => {
+            // each operand is evaluated once (long chains nest hundreds of levels deep)
+            let (ra, rb) = (eval(a, ph), eval(b, ph));
+            if matches!(op, Op::Add | Op::Sub | Op::Mul | Op::Div) && derived(&ra, &rb) {
+                return combine(*op, &ra, &rb);
+            }
+            match (known(&ra), known(&rb)) {
+                (Some(x), Some(y)) => match op {
+                    Op::Add => ex(cadd(x, y)),
+                    Op::Sub => ex(csub(x, y)),
+                    Op::Mul => ex(cmul(x, y)),
+                    Op::Div => {
+                        let q = cdiv(x, y);
+                        if finite(x) && finite(y) && cabs(y) > 1e-300 && finite(q) && cabs(x) < 1e150 && cabs(y) < 1e150 && cabs(x) > 1e-150 && cabs(y) > 1e-150 {
+                            RC { v: q, q: QC::Rel(1e-12) }
+                        } else {
+                            unspec()
+                        }
                     }
-                }
-                Op::Pow => pow_ref(x, y),
+                    Op::Pow => pow_ref(x, y),
+                    _ => unspec(),
+                },
                 _ => unspec(),
-            },
-            _ => unspec(),
-        },
-        Ast::IMul(a, b) => match (known(&eval(a, ph)), known(&eval(b, ph))) {
-            (Some(x), Some(y)) => ex(cmul(x, y)),
-            _ => unspec(),
-        },
+            }
+        }
+        Ast::IMul(a, b) => {
+            let (ra, rb) = (eval(a, ph), eval(b, ph));
+            if derived(&ra, &rb) {
+                return combine(Op::Mul, &ra, &rb);
+            }
+            match (known(&ra), known(&rb)) {
+                (Some(x), Some(y)) => ex(cmul(x, y)),
+                _ => unspec(),
+            }
+        }
         Ast::Sup(a, d) => match known(&eval(a, ph)) {
             Some(x) => pow_ref(x, (lit(d), 0.0)),
             None => unspec(),
